@@ -17,7 +17,8 @@ SUMMARY_KEYS = ["runs", "starts_compared", "scrambled_starts"]
 THOROUGH_SCALE = 4
 CRASH_IS_VIOLATION = False
 STARTERS = [["Borda"], ["Copeland"], ["KwikSort"], ["PickAPerm"], ["Borda", "Copeland", "KwikSort"], ["Pulp"],
-            ["BioConsert"], [], [], ["BioCo!"]]
+            ["BioConsert"], [], [], ["BioCo!"], ["Borda", "BordaBucket"], ["BordaBucket", "Borda"], ["KwikSort", "KwikSort"],
+            ["BioConsert[Borda]", "BioConsert[Copeland]"], ["Copeland", "BordaBucket", "PickAPerm"]]
 TIMEOUT = {"quick": 900, "thorough": 5400}
 
 
